@@ -266,8 +266,8 @@ pub const SIZES_QUICK: [usize; 11] = [1, 2, 3, 4, 5, 8, 13, 27, 50, 100, 200];
 // ------------------------------------------------------------------------------------------------
 // Families. Each returns unit-cube coordinates in [0,1]^3; `finish` maps them into the box.
 
-pub const CONDITIONED: [&str; 8] =
-    ["uniform", "uniform", "lattice", "blattice", "coplanar", "mildcluster", "tiny", "clattice"];
+pub const CONDITIONED: [&str; 11] =
+    ["uniform", "uniform", "lattice", "blattice", "coplanar", "mildcluster", "tiny", "clattice", "star", "rows", "gradient"];
 
 pub const ALL_FAMILIES: [&str; 16] = ["star", "rows", "gradient", "uniform", "lattice", "clattice", "blattice", "coplanar", "mildcluster", "tiny", "nearlattice", "walls", "cluster", "cosphere", "slabwalls", "nearpairs"];
 
@@ -595,7 +595,7 @@ pub fn gen_case(label: &str, tier: &str, seed: u64, k: u64, o: &GenOpts) -> Case
         }
         // anchors 1e5 widths away from the origin: only the families that were clean there; clusters only with
         // anchors up to ~12 widths away (at 1e3 widths two panics were seen in ~15 000 inputs of 1000 generators)
-        let far_ok = matches!(family, "uniform" | "lattice" | "blattice" | "tiny");
+        let far_ok = matches!(family, "uniform" | "lattice" | "blattice" | "tiny" | "star" | "rows" | "gradient");
         let limit = if family == "mildcluster" { 50. } else { 2e3 };
         while !far_ok && (b.anchor / b.width).abs().max_element() > limit {
             b = if o.mild_box { mild_box(&mut r) } else { random_box(&mut r) };
